@@ -63,7 +63,7 @@ SPEC = {
                  "C17_unlock_unheld_panics", "C17_unlock_held_ok", "C17_monitor_refines_rwlock", "C17_panic_freezes_lock_state", "C17_unlock_unheld_old_witness",
                  "C17_dag_exclusion", "C17_dag_deadlock_free", "C17_dag_no_deadlock", "C17_dag_wellbracketed_no_panic",
                  "C17_dag_unlock_unheld_panics", "C17_dag_unlock_wrong_mode_old_witness",
-                 "C17_dag_composed_monitors", "C17_dag_composed_exclusion", "C17_dag_composed_deadlock_free", "C17_dag_composed_no_panic", "C17_dag_composed_no_leak", "C17_dag_composed_objects_any_scripts", "C17_dag_misuse_panic_preserves_state", "C17_dag_misuse_panic_fixed_witness", "C17_dag_misuse_panic_wrong_mode_witness", "C17_dag_misuse_panic_kth_id_witness",
+                 "C17_dag_composed_monitors", "C17_dag_composed_exclusion", "C17_dag_composed_deadlock_free", "C17_dag_composed_no_panic", "C17_dag_composed_no_leak", "C17_dag_composed_objects_any_scripts", "C17_dag_misuse_panic_preserves_state", "C17_dag_misuse_call_preserves_state", "C17_dag_misuse_panic_fixed_witness", "C17_dag_misuse_panic_wrong_mode_witness", "C17_dag_misuse_panic_kth_id_witness",
                  "C17_wait_iff_returns_only_if", "C17_wait_iff_no_lost_wakeup", "C17_wait_iff_quiescent",
                  "C17_waitv_refines_wait", "C17_waitv_quiescent", "C17_stack_fifo_conservation", "C17_counter_notifications_chain", "C17_counter_stack_return_values",
                  "C17_driver_outcomes_reachable", "C17_skeleton_starvingmutex", "C17_skeleton_dagmutex", "C17_skeleton_counter", "C17_skeleton_stack", "C17_skeleton_types",
